@@ -86,9 +86,11 @@ func ruleCloseOnce() check.Rule {
 					key := fmt.Sprintf("%s/chan-%s/close", sc, ch.Name())
 					ss := sites[ch]
 					switch {
+					case len(ss) == 0 && chanConsumed(m, sc, ch):
+						c.Report(armed, key, ch.Pos(), "the channel is handed to a consumer (emitted to the destination, ranged over or received from) but the operator never closes it: the consumer's loop never ends")
 					case len(ss) == 0:
 						if armed {
-							c.OK(key, ch.Pos(), "never closed by the operator (signalling by close is not used)")
+							c.OK(key, ch.Pos(), "never closed by the operator and never handed to a consumer")
 						}
 					case allOnce(ss, func(s site) bool { return s.inOnce }):
 						if armed {
@@ -117,10 +119,70 @@ func ruleCloseOnce() check.Rule {
 					default:
 						c.Report(armed, key, ss[0].call.Pos(), "the channel has %d close sites that are not all inside one sync.Once.Do: a double close panics", len(ss))
 					}
+					// a channel the operator sends into must have a consumer
+					if !chanConsumed(m, sc, ch) {
+						var send *ast.SendStmt
+						ast.Inspect(sc.Lit.Body, func(n ast.Node) bool {
+							if st, ok := n.(*ast.SendStmt); ok {
+								if id, _ := rootIdent(st.Chan); id != nil && objOf(info, id) == ch {
+									send = st
+								}
+							}
+							return send == nil
+						})
+						if send != nil {
+							c.Report(armed, fmt.Sprintf("%s/chan-%s/consumed", sc, ch.Name()), send.Pos(), "the operator sends into a channel that it neither emits to the destination nor reads itself: nobody can receive what was sent")
+						}
+					}
+					// closed on unsubscription: some close of the channel executes in a teardown context
+					if len(ss) > 0 && chanConsumed(m, sc, ch) {
+						inTeardown := false
+						for _, op := range sc.SubOps {
+							if op.Method != "close" || teardownOf(op.Ctx) == nil {
+								continue
+							}
+							for _, st := range ss {
+								if op.Call == st.call {
+									inTeardown = true
+								}
+							}
+						}
+						tkey := fmt.Sprintf("%s/chan-%s/closed-by-teardown", sc, ch.Name())
+						if inTeardown {
+							if armed {
+								c.OK(tkey, ch.Pos(), "the teardown reaches a close of the channel: an unsubscription ends the consumer's loop")
+							}
+						} else {
+							c.Report(armed, tkey, ch.Pos(), "no close of the channel is reachable from the operator's teardown: after an unsubscription the consumer of the channel waits for ever")
+						}
+					}
 				}
 			}
 		},
 	}
+}
+
+// chanConsumed: the channel is emitted to the destination, ranged over, or received from inside the operator.
+func chanConsumed(m *model.Model, sc *model.SC, ch types.Object) bool {
+	info := sc.Pkg.TypesInfo
+	for _, e := range sc.Emits {
+		for _, a := range e.Args {
+			if id, _ := rootIdent(a); id != nil && objOf(info, id) == ch {
+				return true
+			}
+		}
+	}
+	found := false
+	ast.Inspect(sc.Lit.Body, func(n ast.Node) bool {
+		switch x := n.(type) {
+		case *ast.RangeStmt:
+			if id, _ := rootIdent(x.X); id != nil && objOf(info, id) == ch {
+				found = true
+			}
+		}
+		return !found
+	})
+	return found
 }
 
 func allOnce[T any](xs []T, f func(T) bool) bool {
